@@ -278,7 +278,15 @@ def _mk_eq_fn( fields ):
 #   return hash((self.x,self.y,))
 
 def _mk_hash_fn( fields ):
-  self_tuple = _mk_tuple_str( 'self', fields )
+  # Lists are unhashable: a list field contributes the (nested) tuple of its elements
+  def _gen_list_hash_strs( type_, prefix ):
+    if isinstance( type_, list ):
+      return "(" + "".join( [ _gen_list_hash_strs( type_[0], f"{prefix}[{i}]" ) + ","
+                              for i in range(len(type_)) ] ) + ")"
+    return prefix
+
+  self_tuple = "(" + "".join( [ _gen_list_hash_strs( type_, f"self.{name}" ) + ","
+                                for name, type_ in fields.items() ] ) + ")"
   return _create_fn(
     '__hash__',
     [ 'self' ],
